@@ -77,10 +77,12 @@ class AWQBitsTensor(QBitsTensor):
 
         This is required to make sure only standard packing is used when serializing.
         """
-        data = self._data.unpack()
+        data = group(self._data.unpack(), axis=self._axis, group_size=self._group_size)
         n_scales = self._scale.numel()
         scale = self._scale.t().reshape((n_scales, 1))
         zeropoint = self._zeropoint.t().reshape((n_scales, 1))
+        # Zeropoint were scaled and negated: convert them back to integer values
+        zeropoint = torch.round(-zeropoint / scale).to(torch.int8)
         return QBitsTensor(
             self._qtype, self._axis, self._group_size, self.size(), self.stride(), data, scale, zeropoint
         )
